@@ -1732,7 +1732,7 @@ class Interp:
         # a call the evaluation has no model for is a value of its own - but only if it cannot have changed an object the evaluation tracks
         mutable = [v for v in list(args) + list(kwargs.values()) + ([obj] if obj is not None else [])
                    if isinstance(v, (Arr, LVal, DVal, InstVal, NSVal, Table))]
-        if "out" in kwargs or name in MUTATORS or (mutable and not name.startswith(PURE_PREFIXES) and name not in PURE_NAMES):
+        if "out" in kwargs or name in MUTATORS or ".ndarray." in name or (mutable and not name.startswith(PURE_PREFIXES) and name not in PURE_NAMES):
             raise Unsupported(f"call of {name}, which is not modelled and may modify its argument")
         self.sh.calls.append((name, list(args), dict(kwargs), node))
         try:
@@ -3029,7 +3029,49 @@ def L_ident(ip, args, kwargs, node):
     return args[0] if args else NotImplemented
 
 
+_KINDS = {"np.ndarray": (Arr,), "list": (LVal,), "tuple": (tuple,), "dict": (DVal,), "pd.DataFrame": (Table,), "pandas.DataFrame": (Table,)}
+_NUMBER_TYPES = {"int", "float", "complex", "np.integer", "np.floating", "np.number", "numbers.Number", "numbers.Real", "numbers.Integral", "np.int64",
+                 "np.float64", "np.generic"}
+
+
 def L_isinstance(ip, args, kwargs, node):
+    """decided only where the kind of the value is known to the evaluation (an array is an ndarray and nothing else ...); whether a number is a
+    Python int or a numpy scalar is not known - that stays an open question (and splits the regime if it is asked)"""
+    if len(args) != 2:
+        return NotImplemented
+    v, types = args
+    names = []
+    for t in (types if isinstance(types, tuple) else (types,)):
+        if not isinstance(t, Builtin):
+            return NotImplemented
+        names.append(t.name)
+    if isinstance(v, (Arr, LVal, tuple, DVal, Table)):
+        if all(n in _KINDS or n in _NUMBER_TYPES or n == "str" for n in names):
+            return TRUE if any(isinstance(v, _KINDS.get(n, ())) for n in names) else FALSE
+        return NotImplemented
+    if is_rat(v) and str_of(v) is not None and all(n in _KINDS or n in _NUMBER_TYPES or n == "str" for n in names):
+        return TRUE if "str" in names else FALSE
+    if is_rat(v) and not _objectlike(v) and not literal_like(v) and all(n in _KINDS or n == "str" for n in names):
+        return FALSE            # a number is no container
+    return NotImplemented
+
+
+def L_isscalar(ip, args, kwargs, node):
+    v = args[0]
+    if isinstance(v, (Arr, LVal, tuple, DVal, Table)):
+        return FALSE
+    if is_rat(v) and (v.is_const() or not _objectlike(v)) and not G.same(v, NONE):
+        return TRUE
+    return NotImplemented
+
+
+def L_hasattr(ip, args, kwargs, node):
+    name = str_of(args[1]) if len(args) == 2 and is_rat(args[1]) else None
+    v = args[0]
+    if name in ("__len__", "__iter__", "__getitem__") and isinstance(v, (Arr, LVal, tuple, DVal)):
+        if isinstance(v, Arr) and v.ndim == 0:
+            return NotImplemented
+        return TRUE
     return NotImplemented
 
 
@@ -3075,7 +3117,7 @@ LIB = {
     "np.float64": L_float, "np.int64": L_int, "np.float32": L_float, "np.int32": L_int, "np.squeeze": L_ident, "np.real": L_ident,
     "itertools.count": L_count, "itertools.product": L_product, "itertools.chain": L_chain,
     "copy.copy": L_copy, "copy.deepcopy": L_copy, "np.ix_": L_ix, "np.diag": L_diag, "np.array_equal": L_array_equal,
-    "print": L_noop, "warnings.warn": L_noop, "isinstance": L_isinstance,
+    "print": L_noop, "warnings.warn": L_noop, "isinstance": L_isinstance, "np.isscalar": L_isscalar, "hasattr": L_hasattr,
     "np.flip": L_flip(None), "np.flipud": L_flip(0), "np.fliplr": L_flip(1), "math.floor": L_floor("floor"), "math.ceil": L_floor("ceil"),
     "np.floor": L_floor("floor"), "np.ceil": L_floor("ceil"), "round": L_floor("round"), "getattr": L_getattr,
     "np.argwhere": L_argwhere, "itertools.compress": L_compress, "itertools.islice": L_islice,
